@@ -31,7 +31,10 @@ static Path64 gen_polyline(Rng& g, int64_t S, int64_t cx, int64_t cy, int n, boo
       double len = shortest + g.unit() * ((double)S - shortest) * (g.chance(50) ? 0.2 : 1.0);
       if (len < 2) len = 2;
       // turn by up to ~165 degrees either way; sometimes go straight on (collinear vertex)
-      double turn = g.chance(8) ? 0.0 : (g.unit() * 2 - 1) * 2.88;
+      // ... and sometimes by a very small angle (1e-6 .. 1e-4 rad): on long segments such a vertex still lies many units off
+      // the chord of its neighbours, so it must get its join although its sine is almost zero
+      double turn = g.chance(8) ? 0.0 : g.chance(10) ? (g.coin() ? 1 : -1) * std::pow(10.0, -6.0 + 2.0 * g.unit()) : (g.unit() * 2 - 1) * 2.88;
+      if (std::fabs(turn) < 1e-3 && turn != 0.0) { len = (double)S * (0.5 + 0.5 * g.unit()); }
       th += turn;
       x += len * std::cos(th); y += len * std::sin(th);
       p.emplace_back((int64_t)std::llround(x), (int64_t)std::llround(y));
@@ -88,10 +91,20 @@ static Paths64 run_real(const Paths64& paths, const Params& pr, double delta) {
     case 4: {  // parameters given through the setters of a default-constructed object
       ClipperOffset co; co.MiterLimit(ml); co.ArcTolerance(arc); co.AddPaths(paths, jt, et); co.Execute(delta, sol); return sol;
     }
-    default: {  // an object constructed with other parameters and already executed, then re-parameterised through the setters
+    case 5: {  // an object constructed with other parameters and already executed, then re-parameterised through the setters
       ClipperOffset co(ml + 1.75, arc * 3 + 1.5); co.AddPaths(paths, jt, et);
       Paths64 junk; co.Execute(delta, junk);
       co.MiterLimit(ml); co.ArcTolerance(arc);
+      co.Execute(delta, sol); return sol;
+    }
+    case 6: {  // the result vector is re-used: it still holds a larger offset of the same paths when the call is made
+      ClipperOffset co(ml, arc); co.AddPaths(paths, jt, et);
+      co.Execute(delta * 3 + (delta < 0 ? -5 : 5), sol);
+      co.Execute(delta, sol); return sol;
+    }
+    default: {  // polytree overload first (tree kept alive), then the paths overload on the same object
+      ClipperOffset co(ml, arc); co.AddPaths(paths, jt, et);
+      PolyTree64 tree; co.Execute(delta, tree);
       co.Execute(delta, sol); return sol;
     }
   }
@@ -280,7 +293,7 @@ int main(int argc, char** argv) {
     pr.jt = (int)(g.next() % 4);
     pr.et = 1 + (int)(g.next() % 4);
     pr.ml = pick_ml(g);
-    pr.api = (int)(g.next() % 6);
+    pr.api = (int)(g.next() % 8);
     StrokeInput in;
     if (!gen_input(g, pr.et, in)) { stat("gen.rejected"); continue; }
     int64_t eighths = log_uniform(g, 8, std::max<int64_t>(9, in.S * 8 / 2));
